@@ -50,6 +50,11 @@ type Session struct {
 	dead     bool
 	timeout  int // ms per check in live session
 	nchecks  int
+	dry      bool // no solver: used for the path-counting pre-pass
+}
+
+func NewDrySession() *Session {
+	return &Session{frames: [][]string{{}}, dead: true, dry: true}
 }
 
 func NewSession(preamble []string, liveTimeoutMs int) *Session {
@@ -89,6 +94,9 @@ func (s *Session) start() {
 }
 
 func (s *Session) Close() {
+	if s.dry {
+		return
+	}
 	if s.in != nil {
 		s.in.Close()
 	}
@@ -179,6 +187,9 @@ func (s *Session) readLine() (string, bool) {
 // in the live session. Returns "unsat", "sat", "unknown"; on sat the values
 // of getValues (raw get-value answer) are returned too.
 func (s *Session) CheckNot(goal string, getValues []string) (string, int64, string) {
+	if s.dry {
+		return "unsat", 0, ""
+	}
 	t0 := time.Now()
 	s.nchecks++
 	if s.dead {
@@ -242,12 +253,22 @@ func (s *Session) CheckNot(goal string, getValues []string) (string, int64, stri
 
 // CheckSat checks satisfiability of the current stack (used for cover /
 // feasibility queries).
-func (s *Session) CheckSat() string {
+func (s *Session) CheckSat() string { return s.CheckSatT(0) }
+
+// CheckSatT: satisfiability of the current stack with a temporary timeout.
+func (s *Session) CheckSatT(ms int) string {
+	if s.dry {
+		return "sat"
+	}
 	if s.dead {
 		return "unknown"
 	}
 	t0 := time.Now()
-	io.WriteString(s.in, "(check-sat)\n")
+	if ms > 0 {
+		fmt.Fprintf(s.in, "(set-option :timeout %d)\n(check-sat)\n(set-option :timeout %d)\n", ms, s.timeout)
+	} else {
+		io.WriteString(s.in, "(check-sat)\n")
+	}
 	for {
 		l, ok := s.readLine()
 		if !ok {
